@@ -107,6 +107,8 @@ T_PATTERN = '''
 def compile_pattern(compiler, pattern):
     value, assignment = pattern
     if assignment is not None:
+        if assignment == Symbol(__AS_WILD__):
+            raise compiler._syntax_error(assignment, __MSG_AS__)
         return compiler.scope.assign(
             asty.MatchAs(
                 value,
@@ -130,12 +132,16 @@ def compile_pattern(compiler, pattern):
     elif isinstance(value, Symbol):
         return compiler.scope.assign(asty.MatchAs(value, name=mangle(value)))
     elif isinstance(value, Expression) and value[0] == Symbol(__OR__):
+        if len(value[1]) < __OR_MIN__:
+            raise compiler._syntax_error(value, __MSG_OR__)
         return asty.MatchOr(
             value,
             patterns=[compile_pattern(compiler, v) for v in value[1]],
         )
     elif isinstance(value, Expression) and value[0] == Symbol(__DOT__):
         root, syms = value
+        if len(syms) < __DOT_MIN__:
+            raise compiler._syntax_error(value, __MSG_DOT__)
         dotform = mkexpr(root, *syms).replace(value)
         return asty.MatchValue(
             value,
@@ -180,7 +186,7 @@ def compile_pattern(compiler, pattern):
     elif isinstance(value, Keyword):
         return asty.MatchClass(
             value,
-            cls=compiler.compile(dotted(__KEYWORD_CLASS__)).expr,
+            cls=compiler.compile(dotted(__KEYWORD_CLASS__).replace(value)).expr,
             patterns=[
                 asty.MatchValue(value, value=asty.Constant(value, value=value.name))
             ],
@@ -239,6 +245,14 @@ def translate(repo):
     else:
         raise ShapeChanged(RM + ": compile_pattern kwd_attrs expression changed")
     kwclass = cstr(h["__KEYWORD_CLASS__"], "keyword class")
+    as_wild = cstr(h["__AS_WILD__"], "forbidden :as target")
+    for k in ("__MSG_AS__", "__MSG_OR__", "__MSG_DOT__"):
+        cstr(h[k], "syntax error message")
+    mins = {}
+    for k in ("__OR_MIN__", "__DOT_MIN__"):
+        if not (isinstance(h[k], ast.Constant) and type(h[k].value) is int and h[k].value >= 0):
+            raise ShapeChanged(RM + ": compile_pattern: %s is not a small integer literal" % k)
+        mins[k] = h[k].value
     o = ["(* GENERATED by translator/ops_match.py from %s -- do not edit; regenerated on every check run *)" % RM,
          "From Coq Require Import List String.", "Import ListNotations.", "Open Scope string_scope.", ""]
     o.append("Definition singleton_names : list string := %s." % clist(q(x) for x in singletons))
@@ -250,6 +264,10 @@ def translate(repo):
     o.append("Definition if_keyword : string := %s." % q(g["__IF__"]))
     o.append("Definition class_head_excluded : list string := %s." % clist(q(g[k]) for k in ("__NS1__", "__NS2__", "__NS3__", "__NS4__")))
     o.append("Definition keyword_class_path : list string := %s." % clist(q(x) for x in kwclass.split(".")))
+    o.append("(* user errors raised by compile_pattern: `p :as <this>`; (| ...) with fewer alternatives; (. ...) with fewer symbols *)")
+    o.append("Definition as_forbidden_name : string := %s." % q(as_wild))
+    o.append("Definition or_min_alternatives : nat := %d." % mins["__OR_MIN__"])
+    o.append("Definition value_min_symbols : nat := %d." % mins["__DOT_MIN__"])
     o.append("(* whether compile_pattern mangles the keyword of a class pattern into the attribute name *)")
     o.append("Definition kwd_attrs_mangled : bool := %s." % ("true" if kw_mangled else "false"))
     return {"Gen/MatchTables.v": "\n".join(o) + "\n"}
